@@ -480,8 +480,10 @@ def judgeRound (ws impl : List String) : Bool × String :=
     else if dest ≠ "absent" ∧ dest ≠ "complete" then (false, s!"final destination is {dest}: neither absent nor one writer's complete payload")
     else if total ≠ n then (false, s!"{total} outcomes for {n} creators")
     else if created > 1 then (false, s!"{created} creators report having created the file")
-    -- a write whose rename failed afterwards is a failed attempt: it does not count (C16_written_at_most_once)
-    else if kvNat w "writes_ok" 99 > 1 + kvNat o "err_rename" 0 then (false, s!"the contents were written successfully {kvNat w "writes_ok" 99} times ({kvNat o "err_rename" 0} of them lost to a failed rename)")
+    -- a write whose rename was MADE to fail from outside (`lead=renamefail:…`: one injected error) is a failed
+    -- attempt and does not count (C16_written_at_most_once); a rename that fails without injection is no excuse
+    else if kvNat w "writes_ok" 99 > 1 + min (kvNat o "err_rename" 0) (if ((kv ws "lead").getD "-").startsWith "renamefail" then 1 else 0) then
+      (false, s!"the contents were written successfully {kvNat w "writes_ok" 99} times")
     else if created + existing > 0 ∧ dest ≠ "complete" then (false, "a creator returned success but the destination is not complete")
     else if ¬ impl.contains "seen ok" then (false, "a creator that returned success did not see the complete file")
     else if (kv r "dest").getD "?" ≠ "complete" then (false, "after the retry the destination is not complete")
